@@ -387,15 +387,21 @@ def kill_word(event: E) -> None:
     end of the next word. Word boundaries are the same as forward-word.
     """
     buff = event.current_buffer
+    emacs_state = event.app.emacs_state
     pos = buff.document.find_next_word_ending(count=event.arg)
 
     if pos:
         deleted = buff.delete(count=pos)
 
-        if event.is_repeat:
+        # Append to the previous kill, but only when the previous `kill-word`
+        # did kill something. (Otherwise, the text on top of the kill ring is
+        # an older, unrelated kill.)
+        if event.is_repeat and emacs_state.last_kill_word_killed:
             deleted = event.app.clipboard.get_data().text + deleted
 
         event.app.clipboard.set_text(deleted)
+
+    emacs_state.last_kill_word_killed = bool(pos)
 
 
 @register("unix-word-rubout")
